@@ -2,11 +2,13 @@ ENTRY = dict(
     runner="C18", pkg="./cmd/c18", corr=["Corr.C18Corr"], n=dict(quick=300, thorough=2500), runner_timeout=1500,
     rule="spec classes: the 38 predefined parrots, reproducible randomized fingerprints (16 quick / 200 thorough, seeds from the run seed), "
          "fingerprinted copies (Fingerprinter on the class's own ClientHello, re-applied as HelloCustom), custom specs (hybrid-only, hybrid + "
-         "P-256, five shares, P-521/P-384/X25519, Kyber draft + P-384, GREASE + two shares, a share with preset Data) and three QUIC specs. "
+         "P-256, five shares, P-521/P-384/X25519, Kyber draft + P-384, GREASE + two shares, both hybrids, a share with caller-supplied Data) and three QUIC "
+         "specs. Every non-GREASE wire share of every class except that last custom one must be fresh and backed whatever the spec object carries; "
+         "fingerprinted copies additionally: CImport (captured key_share entries vs the spec the Fingerprinter built) and no share equal to the capture's. "
          "Per class: one build under a recording deterministic Config.Rand (wire shares, session id, retained keys, order of reads: CShape / "
          "CShapeQ / CReads); 10 (quick) / 200 (thorough; 50 for randomized and fingerprinted classes) builds under crypto/rand checking sizes, "
          "key backing and pairwise-distinct randoms / session ids / shares; one loopback handshake per generated share with the server's "
-         "CurvePreferences set to that share's group alone (CSelect + oracle). Distinct by (kind of case, class[, group]); non-trivial when the "
+         "CurvePreferences set to that share's group alone (CSelect + oracle), for every class incl. all fingerprinted copies. Distinct by (kind of case, class[, group]); non-trivial when the "
          "hello has more than one share / the selected share is not the first.",
     trusted_base=["harness/hs ClientHello parser and the runner's key_share walker", "the library's own TLS 1.3 server (crypto/tls fork) as the compliant peer",
                   "crypto/ecdh and crypto/mlkem of the Go toolchain (public key derivation used to identify reads), reflection on KeySharePrivateKeys",
